@@ -5,6 +5,7 @@ import (
 	"strings"
 
 	"github.com/frankkopp/FrankyGo/internal/position"
+	"github.com/frankkopp/FrankyGo/internal/types"
 
 	"github.com/frankkopp/FrankyGo/verifsim/rules"
 )
@@ -63,6 +64,23 @@ func checkFenString(s string, mustRoundTrip bool, res *RunResult) {
 		res.count("fen_key_differs_after_roundtrip", 1)
 	}
 	res.count("fen_accepted", 1)
+	// a well-formed position answers the basic board queries (attack and
+	// check tests) - asked only with one king per side on the board, which is
+	// what the protocol handler requires before it uses a position
+	if p.PiecesBb(types.White, types.King).PopCount() == 1 && p.PiecesBb(types.Black, types.King).PopCount() == 1 {
+		func() {
+			defer func() {
+				if r := recover(); r != nil {
+					res.addViolation("C16", "fen_accepted_position_unusable", fmt.Sprintf("%q is accepted, but the check/attack test on the position panics: %v", clip(s, 200), r))
+				}
+			}()
+			_ = p.HasCheck()
+			for _, c := range []types.Color{types.White, types.Black} {
+				_ = p.IsAttacked(p.KingSquare(c), c.Flip())
+			}
+			res.count("fen_accepted_queried", 1)
+		}()
+	}
 }
 
 // CheckFenHalf runs the FEN half of C16 for one scenario: every fen payload
